@@ -86,6 +86,7 @@ type Engine struct {
 	models    []*cachedModel
 	debugModel map[string]uint64
 	syncMaps  map[*Cell]*MapObj
+	hashers   map[*Cell]*hashTranscript
 	light     *Solver
 }
 
@@ -610,7 +611,7 @@ func (e *Engine) global(g *ssa.Global) *Cell {
 	return c
 }
 
-var skipInitPkgs = map[string]bool{"runtime": true, "os": true, "syscall": true, "reflect": true, "unicode": true, "internal/cpu": true, "internal/poll": true, "net": true, "net/http": true, "crypto/rand": true, "testing": true, "log": true, "fmt": true}
+var skipInitPkgs = map[string]bool{"github.com/ferranbt/fastssz": true, "github.com/minio/sha256-simd": true, "crypto/sha256": true, "github.com/prysmaticlabs/gohashtree": true, "runtime": true, "os": true, "syscall": true, "reflect": true, "unicode": true, "internal/cpu": true, "internal/poll": true, "net": true, "net/http": true, "crypto/rand": true, "testing": true, "log": true, "fmt": true}
 
 func (e *Engine) ensureInit(p *ssa.Package) {
 	if e.initDone[p] || e.initBusy[p] {
